@@ -34,7 +34,7 @@ var hookCalls = []string{"send", "reopen", "rmpipenodes", "rmnode-unused", "rmpi
 	"rmpipenodes-dup", "rmpipe-dup", "regpipe-dup-overwrite",
 	// closing wrapped nodes (NodeUnwrapper), also one whose Unwrap returns nil
 	"rmnode-wrapper", "rmnode-wrapper-nil", "rmpipenodes-wrapper-nil"}
-var gatedCalls = []string{"send-expiring", "send-flush", "rmpipenodes", "rmpipe+rmnode", "reopen", "reopen-expired", "regnode-replace", "send-expiring-gateable"}
+var gatedCalls = []string{"send-expiring", "send-flush", "rmpipenodes", "rmpipe+rmnode", "reopen", "reopen-expired", "regnode-replace", "send-expiring-gateable", "send-expiring-unroutable"}
 
 func scenarios(tier string) []scenario {
 	var out []scenario
@@ -171,6 +171,14 @@ func body(sc scenario) func() string {
 			// event type: it must be refused, not sent back into the filter that is holding its lock
 			rec.Type = "t1"
 			rec.GateableAt = rec.N() + 1
+			clk.Advance(2 * time.Second)
+			seq++
+			_, err := b.Send(ctx, "t1", &hn.GP{ID: "late", Seq: seq, Rec: rec})
+			ret = fmt.Sprint(err != nil)
+		case "send-expiring-unroutable":
+			// the expired groups compose to an event type nothing is registered for: the nested Send fails,
+			// and with it the call - it must still return (the filter's clock does not move during the call)
+			rec.Type = "t-unregistered"
 			clk.Advance(2 * time.Second)
 			seq++
 			_, err := b.Send(ctx, "t1", &hn.GP{ID: "late", Seq: seq, Rec: rec})
